@@ -58,7 +58,15 @@ def eval_tree(tree, steps: list):
     tag = tree[0]
     if tag == "leaf":
         try:
-            return parse_version_specifier(tree[1])
+            text = tree[1]
+            # the two documented entry points are twins: every third comma-set leaf comes in through the other one
+            if "||" not in text and "<" + "empty>" not in text and "===" not in text and sum(text.encode()) % 3 == 0:
+                from packaging.specifiers import SpecifierSet
+
+                from dep_logic.specifiers import from_specifierset
+
+                return from_specifierset(SpecifierSet(text))
+            return parse_version_specifier(text)
         except Exception as e:  # noqa: BLE001
             raise LeafError(f"{type(e).__name__}") from None
     if tag == "obj":  # structural description (cell construction)
